@@ -60,3 +60,90 @@ def stop_value(rec,pre,ct,r,step):
     if step==7: return pack(perm(nR,PINV),4)
     if step==8: return pack(perm([a^b for a,b in zip(R,nR)],PINV),4)
     if step==9: return ct if r==15 else pack(R+nR,8)
+
+
+# ---- helpers on top of the definitions above ----
+def unbits(b):
+    return pack(b, 8)
+
+
+def split_master(key):
+    """8/16/24-byte master key -> list of 1 or 3 per-pass 8-byte keys in E-D-E order (k3 = k1 for two-key)."""
+    key = list(key)
+    if len(key) == 8:
+        return [key]
+    if len(key) == 16:
+        return [key[:8], key[8:16], key[:8]]
+    return [key[:8], key[8:16], key[16:24]]
+
+
+def split_expanded(key):
+    """128/256/384 bytes -> per-pass lists of 16 round keys (8 six-bit words each)."""
+    key = list(key)
+    per = [[key[p * 128 + r * 8: p * 128 + r * 8 + 8] for r in range(16)] for p in range(len(key) // 128)]
+    if len(per) == 2:
+        per.append(per[0])
+    return per
+
+
+def passes(key, mode):
+    """Round-key lists in the order they are applied, for each DES pass of (T)DES in the given mode."""
+    per = split_expanded(key) if len(key) >= 128 else [round_keys(k) for k in split_master(key)]
+    if len(per) == 1:
+        return [per[0] if mode == 'encrypt' else per[0][::-1]]
+    if mode == 'encrypt':
+        return [per[0], per[1][::-1], per[2]]
+    return [per[2][::-1], per[1], per[0][::-1]]
+
+
+def tdes_trace(block, key, mode):
+    """Returns [(rec, pre, out)] per pass; pass p+1 starts from the pre-output R16|L16 of pass p used as L0|R0."""
+    res, start = [], None
+    for rks in passes(key, mode):
+        rec, pre, out = des_trace(block, rks, start_lr=start)
+        res.append((rec, pre, out))
+        start = pre
+    return res
+
+
+def crypt(block, key, mode='encrypt'):
+    return tdes_trace(block, key, mode)[-1][2]
+
+
+def self_test():
+    h = bytes.fromhex
+    key, pt, ct = list(h('133457799BBCDFF1')), list(h('0123456789ABCDEF')), list(h('85E813540F0AB405'))
+    if crypt(pt, key) != ct or crypt(ct, key, 'decrypt') != pt:
+        return 'classic DES worked example failed'
+    if round_keys(key)[0] != [0b000110, 0b110000, 0b001011, 0b101111, 0b111111, 0b000111, 0b000001, 0b110010]:
+        return 'K1 of the worked example failed'
+    if sorted(IP) != list(range(1, 65)) or perm(perm(list(range(64)), IP), FP) != list(range(64)):
+        return 'IP/FP are not inverse permutations'
+    if perm(perm(list(range(32)), P), PINV) != list(range(32)):
+        return 'PINV is not the inverse of P'
+    # NIST SP 800-17 style known answers (variable plaintext / variable key first entries)
+    if crypt(list(h('8000000000000000')), list(h('0101010101010101'))) != list(h('95F8A5E5DD31D900')):
+        return 'variable plaintext known answer failed'
+    if crypt(list(h('0000000000000000')), list(h('8001010101010101'))) != list(h('95A8D72813DAA94D')):
+        return 'variable key known answer failed'
+    try:
+        from Crypto.Cipher import DES, DES3
+        import os
+        for _ in range(6):
+            k, p = os.urandom(8), os.urandom(8)
+            if bytes(crypt(list(p), list(k))) != DES.new(k, DES.MODE_ECB).encrypt(p):
+                return 'DES reference disagrees with pycryptodome'
+        done = 0
+        while done < 6:
+            k = os.urandom(24 if done % 2 else 16)
+            p = os.urandom(8)
+            try:
+                c = DES3.new(k, DES3.MODE_ECB)
+            except ValueError:   # degenerate key refused by pycryptodome
+                continue
+            if bytes(crypt(list(p), list(k))) != c.encrypt(p) or bytes(crypt(list(p), list(k), 'decrypt')) != c.decrypt(p):
+                return 'TDES reference disagrees with pycryptodome'
+            done += 1
+    except ImportError:
+        pass
+    return None
